@@ -25,6 +25,11 @@ Definition model1 (o : dop) : list (list N) :=
     let all := map types_of args in
     let chats := fold_right N.add 0 (map count_chat all) in
     map (fun tys => [1] ++ be16 0 ++ be32 1 ++ reply_ids tys 2 ++ be16 chats) all
+  else if code =? 3 then
+    (* two transactions drained in turns (part of the first, all of the second, the rest of the first): what comes
+       out of each is its own encoding *)
+    [impl_bytes_tran (mk_tran 0 0 104 1 0 [NewField 101 (a 0 args)]);
+     impl_bytes_tran (mk_tran 0 0 104 1 0 [NewField 101 (a 1 args)])]
   else [].
 Definition model (ops : list dop) : list (list (list N)) := map model1 ops.
 
@@ -39,6 +44,9 @@ Definition oracle1 (o : dop) (obs : list (list N)) : bool :=
       bytes_eqb (firstn 3 ob) [1; 0; 0] &&
       bytes_eqb (firstn (4 + List.length (reply_ids tys 2)) (skipn 3 ob)) (be32 1 ++ reply_ids tys 2))
     (combine args obs)
+  else if code =? 3 then
+    bytes_match (spec_enc_tran (mk_tran 0 0 104 1 0 [NewField 101 (a 0 args)])) (a 0 obs) &&
+    bytes_match (spec_enc_tran (mk_tran 0 0 104 1 0 [NewField 101 (a 1 args)])) (a 1 obs)
   else true.
 Definition oracle (ops : list dop) (obs : list (list (list N))) : bool :=
   forallb (fun p => oracle1 (fst p) (snd p)) (combine ops obs).
